@@ -97,7 +97,7 @@ EXTRA = {
     "C16": ("the lock/file skeleton of evaluate, _save_one_subject and make_statistic, the two module-level locks, and the value of every path argument (symbolic evaluation of the constructor)", "evaluate_fresh_ok, evaluate_claimed_ok, stat_ok, locks_ok (event sequences equal those of Agg.step), out_paths_ok, path_branches_ok"),
     "C17": ("the file part of the aggregator constructor in ten file states, the claimed-subject path of evaluate, and the value of every path argument (symbolic evaluation of the constructor: output file = given path or given path + .tsv, buffer = its stem-named sibling)", "ctor_ok, evaluate_claimed_ok (event sequences equal those of Agg.ctorStep / Agg.step), out_paths_ok, path_branches_ok"),
     "C11": ("the pair code of _calc_overlapping_labels (which side's background is masked) and the fresh labels / dtype decisions of the relabelling — the two places where prediction and reference are treated differently", "masked_ok, code_ok, keep_ok, decode_ok, acc_bits_ok, fit_ok, fresh_base_ok, fresh_kth_ok, missed_ok, table_ok; end-to-end theorem pipeline_mirror (unmatched input, one-to-one matching on IoU/Dice, tie-free candidates: tp equal, counts exchanged, per-instance lists permuted) via uniqueness of the valid matching; pipeline_mirror_semantic (the same for semantic input, through C10.pipeline_semantic_unfold)"),
-    "C09": ("the pair code of _calc_overlapping_labels (expression, 64-bit accumulation, masked side, filter, decoding) and the dtype / fresh-label decisions of the relabelling", "code_ok, max_ref_ok, keep_ok, decode_ok, acc_bits_ok, masked_ok, unique_ok, fit_ok, fresh_base_ok, fresh_kth_ok, table_ok; end-to-end theorems pipeline_rename (one-to-one threshold matcher) and pipeline_rename_merge (merge matcher, pairwise distinct candidate scores) (injective renaming of both label sets and change of integer width: counts and tp equal, per-instance lists permuted, tie-free candidates) via uniqueness of the valid matching; pipeline_rename_semantic (semantic input, every configuration: equal results, from components_rename)"),
+    "C09": ("the pair code of _calc_overlapping_labels (expression, 64-bit accumulation, masked side, filter, decoding) and the dtype / fresh-label decisions of the relabelling", "code_ok, max_ref_ok, keep_ok, decode_ok, acc_bits_ok, masked_ok, unique_ok, fit_ok, fresh_base_ok, fresh_kth_ok, table_ok; end-to-end theorems pipeline_rename (one-to-one threshold matcher) and pipeline_rename_merge (merge matcher, pairwise distinct candidate scores) (injective renaming of both label sets and change of integer width: counts and tp equal, per-instance lists permuted, tie-free candidates) via uniqueness of the valid matching; pipeline_rename_semantic (semantic input, every configuration: equal results, from components_rename); pipeline_rename_m2o (many-to-one matching, via C03.unique_m2o)"),
     "C04": ("_get_smallest_fitting_uint, the fresh labels of map_instance_labels and the table of _map_labels", "fit_ok, fit_holds, fresh_base_ok, fresh_kth_ok, missed_ok, table_ok (lifted to fullLabelMap / assignFresh / mapBits)"),
     "C05": ("the backend decision, the per-side labelling / emptiness guards, result dtype and counts of _approximate_instances and the library calls of _connected_components", "backend_default_ok, backend_config_ok, sides_ok, result_dtype_ok, cc_dispatch_ok"),
     "C15": ("that _approximate_instances does not write to the approximator object (and its backend decision); that extract_label copies before it writes and _evaluate_group is wired with the evaluator's own settings", "backend_config_ok, backend_default_ok, extract_label_ok, group_wiring_ok"),
@@ -107,7 +107,7 @@ EXTRA = {
     "C07": ("the structure of the ASSD computation (two directed averages, borders by erosion with connectivity 1, distance map of the reference border read at the prediction border, masks only made boolean)", "assd_symmetric_ok, assd_directed_ok, assd_surface_ok"),
     "C06": ("the bodies of the Dice, IoU and RVD helpers over their four counts", "dice_body_ok, iou_body_ok, rvd_body_ok (lifted to dice / iou / rvd); centre-line Dice exercised in five memory layouts with and without label selection; large-scale masks (2^22 .. 2^24 voxels) judged by exact integer counts"),
     "C19": (None, "label_norm_idem / label_norm_order_free: the one list normalisation of a constructor (sorted set of labels) is proved idempotent and order-independent"),
-    "C10": ("the slice bounds of _get_bbox_nd, the union / fallback / padding of _get_paired_crop and the backend decision by number of axes", "bbox_bounds_ok, bbox_covers, paired_crop_ok (lifted to bboxNd), backend_default_ok; end-to-end theorems pipeline_counts_invariant (instance input) and pipeline_semantic_invariant (semantic input: components are transported and renumbered by any adjacency-preserving injective coordinate map, both backends), threshold matching on IoU/Dice and the metrics IoU/Dice/RVD"),
+    "C10": ("the slice bounds of _get_bbox_nd, the union / fallback / padding of _get_paired_crop and the backend decision by number of axes", "bbox_bounds_ok, bbox_covers, paired_crop_ok (lifted to bboxNd), backend_default_ok; end-to-end theorems pipeline_counts_invariant (instance input, threshold matcher), pipeline_counts_invariant_merge (merge matcher, ties included) and pipeline_semantic_invariant (semantic input: components are transported and renumbered by any adjacency-preserving injective coordinate map, both backends), threshold matching on IoU/Dice and the metrics IoU/Dice/RVD"),
 }
 
 SCALE = {"C01", "C03", "C04", "C06", "C07", "C10", "C14"}
